@@ -29,6 +29,8 @@ fn gen_term(r: &mut Rng) -> String {
     let b = gen_body(r);
     match r.below(19) {
         // the sigil characters doubled or inside the body: only the outermost one is syntax
+        // a counted repetition is plain text to every engine but the regex one
+        16 if r.chance(1, 2) => format!("{}{}", b, r.pick(&["{2}", "{1,2}", "{", "}", "{}", "a{2}"])),
         16 => format!("{}{}", b, r.pick(&["$$", "$$$", "^$", "$^"])),
         17 => format!("{}{}", r.pick(&["^^", "!!", "''", "!'", "^!", "'^^"]), b),
         18 => format!("{}{}{}", r.pick(&["^", "!", "'", ""]), [gen_body(r), r.pick(&["$", "^", "!", "'"]).to_string(), b.clone()].concat(), r.pick(&["$", ""])),
@@ -43,7 +45,8 @@ fn gen_query(r: &mut Rng) -> String {
     let mut q = String::new();
     if r.chance(1, 6) { q.push_str(*r.pick(&[" ", "  ", "| ", " | "])); }
     for a in 0..nalt {
-        if a > 0 { q.push_str(*r.pick(&[" | ", "  |  ", " |  ", " |", "| ", "|"])); }
+        // (a run of bars between blanks is a stray term, not a separator)
+        if a > 0 { q.push_str(*r.pick(&[" | ", "  |  ", " |  ", " |", "| ", "|", " || ", "  |||  ", " | | "])); }
         let nt = 1 + r.below(3);
         // between terms: blanks, or (rarely) runs of backslashes before a blank: only a backslash directly before the blank escapes it
         for t in 0..nt { if t > 0 { q.push_str(if r.chance(1, 10) { *r.pick(&["\\ ", "\\\\ ", "\\\\\\ ", "\\\\  "]) } else { *r.pick(&[" ", "  "]) }); } q.push_str(&gen_term(r)); }
@@ -172,6 +175,17 @@ fn main() {
             let mut o = String::new();
             for c in t.chars() { if r.chance(1, 3) { o.push(*r.pick(&['x', '-', 'd', ' '])); } o.push(c); }
             text = o;
+        }
+        // a text that the term would match if its counted repetition were read as a regex: "xa{2}" against "xaa"
+        if !regex_mode && query.contains("{2}") && r.chance(1, 2) {
+            let plain: String = query.chars().filter(|c| !" |'^$!\\".contains(*c)).collect();
+            let cs: Vec<char> = plain.chars().collect();
+            let mut o = String::new();
+            let mut i = 0;
+            while i < cs.len() {
+                if i + 3 < cs.len() + 0 && cs[i + 1] == '{' && cs[i + 2] == '2' && cs.get(i + 3) == Some(&'}') { o.push(cs[i]); o.push(cs[i]); i += 4; } else { o.push(cs[i]); i += 1; }
+            }
+            text = if r.chance(1, 2) { o } else { format!("{}{}", r.pick(&TCH), o) };
         }
         // --nth ranges on character boundaries (C08 focus: more often, any order)
         let bounds: Vec<usize> = text.char_indices().map(|(i, _)| i).chain(std::iter::once(text.len())).collect();
